@@ -58,13 +58,23 @@ def inline_program(rng):
         with_calls += '.cols(@w) {\n  .col-1 { width: @w; }\n  .col-2 > em { width: (@w * 2); }\n}\n.cols(%s);\n' % w
         inlined += '.col-1 { width: %s; }\n.col-2 > em { width: (%s * 2); }\n' % (w, w)
     ncall = rng.randint(2, 4)
+    # arguments that are variables whose VALUE mentions a variable named like a parameter of the callee (@a / @b): the argument means its
+    # value at the call site, the callee's parameters must not capture the names inside it
+    indirect = rng.random() < 0.35
+    if indirect:
+        ga, gb = rng.choice(ARGS), rng.choice(ARGS)
+        pre = '@a: %s;\n@b: %s;\n@ua: @b;\n@ub: @a;\n@uc: @ua;\n' % (ga, gb)
+        with_calls = pre + with_calls
+        inlined = pre + inlined
     for c in range(ncall):
         d = rng.choice(defs)
         a, b = rng.choice(ARGS), rng.choice(ARGS)
+        if indirect and rng.random() < 0.7:
+            a, b = rng.choice([('@ua', '@ub'), ('@ub', b), (a, '@ua'), ('@uc', '@ub'), ('@b', '@a')])
         own = 'color: red;\n' if rng.random() < 0.5 else ''
         sep = rng.choice([';', ','])
         with_calls += '.call%d {\n%s  %s(%s%s %s);\n}\n' % (c, own, d['name'], a, sep, b)
-        inlined += '.call%d {\n%s%s}\n' % (c, own, body(d, a, b, a))
+        inlined += '.call%d {\n%s%s}\n' % (c, own, body(d, a, b, ('@{%s}' % a[1:]) if a.startswith('@') else a))
     if rng.random() < 0.5:           # definitions after the calls
         lines = with_calls.split('}\n')
     return with_calls, inlined
